@@ -25,11 +25,19 @@ theorem scan_items_le (e : End) (f : Nat) : ∀ (data : Bytes), ∀ p ∈ (scan 
           simp only [List.length_drop, List.length_cons] at this ⊢
           omega
 
-theorem mkPl_items_le (data : Bytes) : ∀ p ∈ (mkPl data).items, p.2.length ≤ data.length := by
+theorem mkPl_items_le (cfg : Cfg) (data : Bytes) : ∀ p ∈ (mkPl cfg data).items, p.2.length ≤ data.length := by
   unfold mkPl
   simp only
   split
-  · next en h => exact scan_items_le en data.length data
+  · next en h =>
+    by_cases hf : cfg.fixHdr = true
+    · simp only [hf, if_true]
+      intro p hp
+      have := scan_items_le en data.length (data.drop 4) p hp
+      simp only [List.length_drop] at this
+      omega
+    · simp only [hf, Bool.false_eq_true, if_false]
+      exact scan_items_le en data.length data
   · intro p hp; simp at hp
 
 theorem findPid_mem (q : Nat) (xs : List Param) (v : Bytes) (h : findPid q xs = some v) : ∃ p ∈ xs, p.2 = v := by
